@@ -464,7 +464,7 @@ func ParentMain(id, tier string, seed int64, self string) int {
 		}
 	}
 	p := &Parent{Check: ck, Tier: tier, Seed: seed, WorkDir: work, Stats: map[string]int64{}, Distinct: map[string]struct{}{}}
-	timeout := 30 * time.Minute
+	timeout := 12 * time.Minute
 	if tier == "thorough" {
 		timeout = 4 * time.Hour
 	}
